@@ -38,6 +38,8 @@ def replay_model(ob, repo_root):
     if not qual or qual not in contracts:
         return dict(status="not-replayable", why="no contract for %r" % qual)
     con = contracts[qual]
+    if con.get("replay"):
+        return replay_script(qual, con["replay"], model, repo_root)
     m = re.search(r"/case(\d+)\.", ob["name"])
     case = (con.get("cases") or [{}])[int(m.group(1))] if m and con.get("cases") else {}
     params = dict(con.get("params", {}))
@@ -60,6 +62,15 @@ def replay_model(ob, repo_root):
                 if f is None:
                     return dict(status="not-replayable", why="cannot read %s=%r" % (name, v))
                 args[name] = int(f) if kind == "int" else float(f)
+        elif kind in ("dt", "dt_ms"):
+            v = None
+            for k, txt in model.items():
+                if k.startswith(name + "!"):
+                    v = txt
+            f = _num(v) if v is not None else Fraction(0)
+            if f is None or f.denominator != 1:
+                return dict(status="not-replayable", why="cannot read %s=%r" % (name, v))
+            args[name] = {"$dt_us": int(f)}
         elif kind.startswith("str:"):
             n = int(kind[4:])
             cs = []
@@ -86,4 +97,39 @@ def replay_model(ob, repo_root):
     except Exception:
         return dict(status="replay-crash", stdout=r.stdout[-500:], stderr=r.stderr[-500:])
     out["input"] = dict(function=qual, args=args)
+    return out
+
+
+_RUNNER = """
+import json, os, sys
+sys.path.insert(0, os.environ.get("LABELLA_REPO", "/repo"))
+job = json.load(sys.stdin)
+ns = {}
+exec(job["src"], ns)
+try:
+    failed, observed, inp = ns["replay"](job["m"])
+    print(json.dumps(dict(status="fails" if failed else "holds", observed=observed, input=inp)))
+except Exception as ex:
+    print(json.dumps(dict(status="replay-crash", observed="%s: %s" % (type(ex).__name__, ex))))
+"""
+
+
+def replay_script(qual, src, model, repo_root):
+    """contract-specific replay: the contract names a history (python source defining replay(m) -> (failed, observed, input))
+    that rebuilds the entry state of its setup on the REAL classes from the model's scalar values (m: name -> float)."""
+    vals = {}
+    for k, txt in model.items():
+        name = k.split("!")[0]
+        f = _num(txt) if isinstance(txt, str) else None
+        if f is not None and name not in vals:
+            vals[name] = float(f) if f.denominator != 1 else int(f)
+    import collections
+    m = collections.defaultdict(int, vals)
+    r = subprocess.run(["/venv/bin/python", "-c", _RUNNER], input=json.dumps(dict(src=src, m=dict(m), names=list(vals))),
+                       capture_output=True, text=True, env=dict(os.environ, LABELLA_REPO=repo_root), timeout=60)
+    try:
+        out = json.loads(r.stdout.strip().splitlines()[-1])
+    except Exception:
+        return dict(status="replay-crash", stdout=r.stdout[-500:], stderr=r.stderr[-500:])
+    out.setdefault("input", dict(function=qual, model=vals))
     return out
